@@ -65,3 +65,6 @@ UNITS = [
     T("tf_steps3_m%d" % m, ["a_tf_iter", "a_tf_init", "a_tf_zero"], entry="h_tf_steps", defines=["MD=%d" % m, "VERIF_TYPED_MOVE", "STEPS=3"], unwind=6, level="B",
       bound=BD + "; three steps; exact domain |v| <= 16", solver="cvc5", key=["third output equals the reference recurrence"], min_obl=50, timeout=1800, tiers=("thorough",)) for m in range(5)
 ]
+
+UNITS.append(U("gen_nan", "gen.c", "h_gen", level="P", functions=["a_lpf_gen", "a_hpf_gen"], min_obl=3, solver="cvc5", split=4, timeout=300,
+               replay={"native": True}, key=["lpf_gen"]))
